@@ -227,6 +227,32 @@ def run(sim, params):
                     why = "more_than_once"
                 raise Violation("undeploy_count", f"connector of {d['name']} deployed at {d['dend']} was undeployed {n} times ({why}); {case}",
                                 signature=f"undeploy_count:{min(n, 2)}:{why}")
+    # 4b. an undeploy_all REQUEST (not only the final one) leaves no eager connector live whose deploy() call had already
+    #     started when the request began - unless a later request asked for that deployment again
+    for e in ev:
+        if e[1] == "REQ.start" and e[3] == "undeploy_all":
+            i, start = e[2], e[0]
+            end = next((x[0] for x in ev if x[1] == "REQ.end" and x[2] == i), None)
+            if end is None or not any(o[0] == i and o[1] == "ok" for o in state["outcomes"]):
+                continue
+            for d in inst.values():
+                if lazy[d["name"]] or d["failed"] or d["dstart"] is None or d["dend"] is None or d["dstart"] >= start:
+                    continue
+                if any(us <= end for us in d["ustart"]):
+                    continue
+                again = any(x[1] == "REQ.start" and x[3] in ("deploy", "use") and d["name"] in needs(x[4]) and x[0] > start for x in ev)
+                # a request for a WRAPPER of it that overlaps the undeploy_all legitimately keeps the inner deployment
+                ends = {x[2]: x[0] for x in ev if x[1] == "REQ.end"}
+                wrapper_busy = any(x[1] == "REQ.start" and x[3] in ("deploy", "use") and x[4] != d["name"] and d["name"] in needs(x[4])
+                                   and x[0] < end and ends.get(x[2], INF) > start for x in ev)
+                # another undeploy / undeploy_all overlapping this one may be the one that finishes the job after this one returned
+                other_undeploy = any(x[1] == "REQ.start" and x[3] in ("undeploy", "undeploy_all") and x[2] != i
+                                     and x[0] < end and ends.get(x[2], INF) > start for x in ev)
+                if failing is not None or again or wrapper_busy or other_undeploy:
+                    continue
+                raise Violation("undeploy_all_left_live", f"request #{i} undeploy_all ran during steps {start}..{end}; the eager connector of {d['name']} "
+                                f"(deploy() started at {d['dstart']}, completed at {d['dend']}) was not undeployed by it (undeploys: {d['ustart']}); {case}",
+                                signature="undeploy_all_left_live:eager_connector")
     # 5. failures are reported to every request that needs the failing deployment
     if failing is not None:
         sim.fault("failing_deployment_configured")
